@@ -150,6 +150,10 @@ func (g *groupModel) serveGroup(br *mbroker, c *simConn, h reqHeader, body inter
 		}
 		if fault != nil && fault.Do == "errcode" {
 			cl.noteFault("group-errcode")
+			if (fault.Code == 22 || fault.Code == 25) && g.onVoided != nil {
+				// an injected UNKNOWN_MEMBER_ID / ILLEGAL_GENERATION tells the client to forget its identity
+				g.onVoided(h.client)
+			}
 			return sarama.KError(fault.Code)
 		}
 		return sarama.ErrNoError
@@ -197,7 +201,7 @@ func (g *groupModel) serveGroup(br *mbroker, c *simConn, h reqHeader, body inter
 			return enc(&sarama.SyncGroupResponse{MemberAssignment: m.assignment})
 		}
 		// CompletingRebalance
-		m.awaitingSync = &heldResp{c: c, corr: h.corr}
+		m.awaitingSync = &heldResp{c: c, corr: h.corr, client: h.client}
 		cl.k.logf("b%d SyncGroup member=%q gen=%d leader=%v assignments=%d", br.id, r.MemberId, r.GenerationId, r.MemberId == mg.leader, len(r.GroupAssignments))
 		if r.MemberId == mg.leader {
 			g.recordPlan(mg, r)
@@ -309,6 +313,7 @@ func (g *groupModel) join(mg *mgroup, r *sarama.JoinGroupRequest, held *heldResp
 		if !changed && m.id != mg.leader {
 			// follower re-joining with unchanged metadata: current generation again
 			g.touch(mg, m)
+			g.issuedTo(m, held.c, held.corr)
 			return enc(g.joinResponse(mg, m, r.Version))
 		}
 		m.awaitingJoin = held
@@ -316,6 +321,7 @@ func (g *groupModel) join(mg *mgroup, r *sarama.JoinGroupRequest, held *heldResp
 	case gCompleting:
 		if !changed {
 			g.touch(mg, m)
+			g.issuedTo(m, held.c, held.corr)
 			return enc(g.joinResponse(mg, m, r.Version))
 		}
 		m.awaitingJoin = held
@@ -332,6 +338,13 @@ func (g *groupModel) join(mg *mgroup, r *sarama.JoinGroupRequest, held *heldResp
 	}
 	g.maybeCompleteJoin(mg)
 	return nil, true
+}
+
+// issuedTo tells the scenario on which connection / correlation id a successful JoinGroup answer travels.
+func (g *groupModel) issuedTo(m *mmember, c *simConn, corr int32) {
+	if g.onIssuedAt != nil {
+		g.onIssuedAt(m.clientID, m.id, c, corr)
+	}
 }
 
 func (g *groupModel) joinResponse(mg *mgroup, m *mmember, ver int16) *sarama.JoinGroupResponse {
@@ -480,6 +493,7 @@ func (g *groupModel) completeJoin(mg *mgroup, timedOut bool) {
 		mm.awaitingJoin = nil
 		g.touch(mg, mm)
 		if hr != nil {
+			g.issuedTo(mm, hr.c, hr.corr)
 			g.encodeTo(hr, g.joinResponse(mg, mm, hr.ver))
 		}
 	}
@@ -522,9 +536,15 @@ func (g *groupModel) removeMember(mg *mgroup, id string, why string) {
 		return
 	}
 	if hr := m.awaitingJoin; hr != nil {
+		if g.onFenced != nil {
+			g.onFenced(hr.client, hr.c, hr.corr)
+		}
 		g.encodeTo(hr, &sarama.JoinGroupResponse{Version: hr.ver, Err: sarama.ErrUnknownMemberId, MemberId: id})
 	}
 	if hr := m.awaitingSync; hr != nil {
+		if g.onFenced != nil {
+			g.onFenced(hr.client, hr.c, hr.corr)
+		}
 		g.encodeTo(hr, &sarama.SyncGroupResponse{Err: sarama.ErrUnknownMemberId})
 	}
 	delete(mg.members, id)
